@@ -1,6 +1,7 @@
 package props
 
 import (
+	"sync"
 	"fmt"
 	"math"
 	"math/big"
@@ -449,6 +450,79 @@ func (m *c18mon) roundTrip(cn uint64) {
 //	[0, nB)                 row i of the exhaustive B x B table (+ unary on B[i], floats x B[i])
 //	[nB, nB+nZ)             products congruent to 0 mod 2^64
 //	then nR random chunks, nF float chunks, nP parse chunks
+// c18concurrent: the conversions are plain functions of their arguments; called from several goroutines at once they
+// return what they return alone (scratch state shared behind the scenes shows as a foreign result).
+func c18concurrent(c *fw.Ctx) {
+	amounts := append([]float64{7000, 1.5, 1e25, 6000, 0.1, 123.4567891, 1e-10, 922337203.6854775807, 1844674407.3709551615, 1844674407.3709551616, 2e9, 0, 3}, c18F...)
+	type res struct {
+		v   uint64
+		bad bool
+	}
+	seq := make([][3]res, len(amounts))
+	eval := func(i int) (o [3]res) {
+		f := amounts[i]
+		func() {
+			defer func() {
+				if recover() != nil {
+					o[0] = res{0, true}
+				}
+			}()
+			r, err := currency.ParseZCN(f)
+			o[0] = res{uint64(r), err != nil}
+		}()
+		func() {
+			defer func() {
+				if recover() != nil {
+					o[1] = res{0, true}
+				}
+			}()
+			r, err := currency.Float64ToCoin(f)
+			o[1] = res{uint64(r), err != nil}
+		}()
+		func() {
+			defer func() {
+				if recover() != nil {
+					o[2] = res{0, true}
+				}
+			}()
+			r, err := currency.MultFloat64(currency.Coin(1000003), f)
+			o[2] = res{uint64(r), err != nil}
+		}()
+		return
+	}
+	for i := range amounts {
+		seq[i] = eval(i)
+	}
+	var wg sync.WaitGroup
+	var mu sync.Mutex
+	first := ""
+	for g := 0; g < 8; g++ {
+		wg.Add(1)
+		go func(g int) {
+			defer wg.Done()
+			for k := 0; k < 400; k++ {
+				for j := range amounts {
+					i := (j*7 + g*13 + k) % len(amounts)
+					if got := eval(i); got != seq[i] {
+						mu.Lock()
+						if first == "" {
+							first = fmt.Sprintf("amount %v: (ParseZCN, Float64ToCoin, MultFloat64(1000003, .)) = %v from 8 goroutines at once, %v when called alone (value, failed)", amounts[i], got, seq[i])
+						}
+						mu.Unlock()
+						return
+					}
+				}
+			}
+		}(g)
+	}
+	wg.Wait()
+	if first != "" {
+		c.Violate("", "%s", first)
+		return
+	}
+	c.Count("concurrent_conversion_calls", int64(8*400*len(amounts)*3))
+}
+
 func c18Layout(tier string) (nB, nZ, nR, nF, nP int) {
 	nB = len(c18B)
 	nZ = 64
@@ -523,6 +597,9 @@ func runC18(c *fw.Ctx) {
 			m.pairU(b, a)
 			c.Count("wrap_to_zero_pairs", 2)
 			c.Distinct("nontrivial", fw.Hash64("pair", a, b))
+		}
+		if idx-nB < 8 {
+			c18concurrent(c)
 		}
 	case idx < nB+nZ+nR:
 		c.Describe(map[string]any{"kind": "random-pairs"})
@@ -617,7 +694,7 @@ func init() {
 			"shortest round-trip decimal as exact rational for ParseZCN. distinct non-trivial = distinct operand tuples evaluated",
 		Cases: func(tier string) int { a, b, cc, d, e := c18Layout(tier); return a + b + cc + d + e },
 		Run:   runC18,
-		Floors: map[string]int64{"eval_MultCoin": 100000, "eval_AddCoin": 100000, "eval_DistributeCoin": 100000, "eval_Float64ToCoin": 50000, "eval_MultFloat64": 50000,
+		Floors: map[string]int64{"concurrent_conversion_calls": 1000000, "eval_MultCoin": 100000, "eval_AddCoin": 100000, "eval_DistributeCoin": 100000, "eval_Float64ToCoin": 50000, "eval_MultFloat64": 50000,
 			"eval_ParseZCN": 50000, "eval_codec": 1000, "negative_wire_integers_refused": 500, "round_trips": 20000, "wrap_to_zero_pairs": 20000, "loud_failures": 10000, "parse_ok": 5000, "parse_neighbours": 100000},
 		Assumptions: []string{
 			"AddInt64/MinusInt64 with a negative operand: an error or the exact result are both accepted (the helper documents refusal)",
